@@ -34,13 +34,13 @@ ASSUMPTIONS = [
     "bound methods are equal iff they wrap the same function (the library's documented intent for method-valued attributes)",
     "exact truth value of == between an instance and an instance of a sub/superclass is not judged (only symmetry and transitivity)",
 ]
-KINDS = ["int", "str", "list", "leaf", "method", "func", "cls", "mod", "any", "masked"]
-ANN = {"int": "int", "str": "str", "list": "List[int]", "leaf": "Leaf", "method": "Callable", "func": "Callable", "cls": "type", "mod": "Any", "any": "Any", "masked": "Callable"}
+KINDS = ["int", "str", "list", "leaf", "method", "func", "cls", "mod", "any", "masked", "speccls", "ownrepr", "boundfn"]
+ANN = {"int": "int", "str": "str", "list": "List[int]", "leaf": "Leaf", "method": "Callable", "func": "Callable", "cls": "type", "mod": "Any", "any": "Any", "masked": "Callable", "speccls": "type", "ownrepr": "OwnRepr", "boundfn": "Callable"}
 
 
 def GATES(tier):
     return [("comparisons_judged", 2000), ("one_off_pairs", 300), ("triples_checked", 200), ("copies_checked", 100), ("reprs_checked", 300),
-            ("repr_self_reference", 10), ("repr_indented", 10), ("method_before_difference", 20), ("subclass_pairs", 50), ("repr_keyed_child_missing_key", 10)] + [(f"diff_kind:{k}", 5) for k in KINDS]
+            ("repr_self_reference", 10), ("repr_indented", 10), ("method_before_difference", 20), ("subclass_pairs", 50), ("subclass_triples", 200), ("repr_keyed_child_missing_key", 10)] + [(f"diff_kind:{k}", 5) for k in KINDS]
 
 
 SRC_HEAD = '''
@@ -51,9 +51,20 @@ from spec_classes import spec_class, Attr
 def f1(): return 1
 def f2(): return 2
 
+def detached_a(self): return "detached a"
+detached_a.__name__ = "helper"  # same name as a method of the class, different function
+def detached_b(self): return "detached b"  # a name the class does not have
+
 @spec_class(bootstrap=True)
 class Leaf:
     v: int = 0
+
+@spec_class(bootstrap=True)
+class OwnRepr:
+    v: int = 0
+
+    def __repr__(self):  # hand-written, takes no rendering options
+        return f"<OwnRepr {self.v}>"
 
 @spec_class(key="k", bootstrap=True)
 class KL:
@@ -99,6 +110,14 @@ def value(ns, kind, which, inst):
         return [ns["f1"], ns["f2"]][which]
     if kind == "cls":
         return [int, str][which]
+    if kind == "speccls":  # a spec class object (not an instance) as a value
+        return [ns["Leaf"], ns["KL"]][which]
+    if kind == "boundfn":  # a method bound to the instance whose function is not what its name resolves to on the class
+        import types
+
+        return types.MethodType([ns["detached_a"], ns["detached_b"]][which], inst)
+    if kind == "ownrepr":
+        return ns["OwnRepr"](v=which + 1)
     if kind == "mod":
         return [math, json][which]
     if kind == "any":
@@ -255,8 +274,11 @@ def run(ctx, params):
                 report("eq_transitive", f"x == y and y == z but x != z for pool items {a}, {b}, {c}")
         # subclass pairs: symmetry and transitivity only
         subs = [build(ns, cn, kinds, c) for cn in ("F", "G") for c in (base_choice, [1] + base_choice[1:])]
-        mixed = [base] + subs
-        for xa, xb in itertools.combinations(mixed, 2):
+        f_extra = build(ns, "F", kinds, base_choice)
+        f_extra.extra = 1  # differs from the first F instance only in the attribute the subclass adds
+        mixed = [base] + subs + [f_extra]
+        across = {}
+        for (ia, xa), (ib, xb) in itertools.combinations(enumerate(mixed), 2):
             ctx.count("subclass_pairs")
             try:
                 r1, r2 = (xa == xb), (xb == xa)
@@ -265,6 +287,17 @@ def run(ctx, params):
                 continue
             if r1 is not r2:
                 report("eq_symmetric_across_classes", f"{type(xa).__name__} == {type(xb).__name__} -> {r1} but reversed -> {r2}")
+            across[(ia, ib)] = across[(ib, ia)] = bool(r1)
+            if type(xa) is type(xb):
+                same = all(ref_equal_values(xa.__dict__.get(k, cg), xb.__dict__.get(k, cg)) for k in set(xa.__dict__) | set(xb.__dict__)
+                           if not k.startswith("a") or flags[int(k[1:])][0])
+                if bool(r1) is not same:
+                    report("eq_pairs", f"two {type(xa).__name__} instances: == -> {r1}, reference says {same}", expected=same, diff_kinds=["subclass_attr"])
+        for a, b, c in itertools.permutations(range(len(mixed)), 3):
+            ctx.count("subclass_triples")
+            if across.get((a, b)) and across.get((b, c)) and across.get((a, c)) is False:
+                report("eq_transitive_across_classes", f"{type(mixed[a]).__name__} == {type(mixed[b]).__name__} and {type(mixed[b]).__name__} == {type(mixed[c]).__name__} "
+                       f"but the first != the third ({safe_repr(mixed[a], 60)} / {safe_repr(mixed[b], 60)} / {safe_repr(mixed[c], 60)})")
         # E4: copies
         for cn, c, x in insts[: params["copies"]]:
             ctx.count("copies_checked")
